@@ -156,6 +156,17 @@ def gen_points(rng, fmt, prog, n):
             else:
                 yb_ = max(0, (yb_ & ~sign) + rng.randrange(-3, 4)) | (yb_ & sign)
         pts.append(("curve", xb_, yb_))
+    # (f) subnormal components (the property names them): both subnormal with log-uniform magnitudes, or one subnormal and the other
+    # anything — the uniform-over-patterns stream meets a subnormal component once in 2^ew
+    def subn():
+        return rnd_sign(max(1, rng.randrange(1, 1 << (p - 1)) >> rng.randrange(0, p - 1)))
+    for _ in range(max(1, n // 2)):
+        r = rng.random()
+        a = subn()
+        b = subn() if r < 0.5 else (rnd_sign(rng.randrange(0, inf)) if r < 0.8 else rnd_sign(((bias + rng.randrange(-12, 12)) << (p - 1)) | rng.getrandbits(p - 1)))
+        if rng.random() < 0.5:
+            a, b = b, a
+        pts.append(("subnormal", a, b))
     # (d) special lattice (finite and infinite)
     L = [0, 1, 1 << (p - 1), bias << (p - 1), inf - 1, inf]
     L = L + [v | sign for v in L]
@@ -215,6 +226,39 @@ def region(b, fmt):
     if e - bias >= bias // 2:
         return "square-overflows"
     return "gt1"
+
+
+def known_cause(name, fmt, comp, xb, yb, d, kind="more-than-16-ulp"):
+    """Cause classes of genuine accuracy limits of the unchanged algorithms, each with an ENVELOPE on the error it explains (an error
+    above the envelope keeps its region signature and is a violation):
+    * log1p, real part, z within D = ||1+z|^2 - 1|/2 of the circle |1+z| = 1: the result is ~ +-D and the double-word evaluation of
+      x^2 + 2x + y^2 carries an absolute error of a few u^2, i.e. ~ 2.5 u/D ulps of the result (u = 2^-p); allowed 16 + 3 u/D;
+    * sqrt with both components subnormal: hypot(|x|,|y|) is itself subnormal with only b significant bits, and the result inherits
+      half its relative error; allowed 16 + 2^(p-b+1), b = bit length of the larger subnormal pattern."""
+    from fractions import Fraction
+
+    p, ew, w = fpx.FMT[fmt]
+    if kind == "spurious-infinity":
+        # * exp, imaginary part, x > 2 log(largest): the overflow branch computes exp(x/2) * sin(y) * exp(x/2), and exp(x/2) itself is
+        #   infinite there, although exp(x) * |sin y| is finite for a tiny (e.g. subnormal) y
+        if name == "exp" and comp == 1:
+            X = fpx.to_fraction(xb, fmt)
+            import numpy
+            if X is not None and X > 2 * Fraction(math.log(float(numpy.finfo(fpx.NPF[fmt]).max))):
+                return "im:spurious-infinity:x>2*log(largest)-so-exp(x/2)-overflows"
+        return None
+    if name == "log1p" and comp == 0:
+        X, Y = fpx.to_fraction(xb, fmt), fpx.to_fraction(yb, fmt)
+        if X is None or Y is None:
+            return None
+        D = abs((1 + X) ** 2 + Y ** 2 - 1) / 2
+        if D > 0 and d <= 16 + 3 * float(Fraction(1, 2 ** p) / D):
+            return "re:cancellation-at-the-circle-|1+z|=1(error<=16+3u/D)"
+    if name == "sqrt" and region(xb, fmt) == "subnormal" and region(yb, fmt) == "subnormal":
+        m = max(xb & ((1 << (w - 1)) - 1), yb & ((1 << (w - 1)) - 1))
+        if d <= 16 + 2 ** (p - m.bit_length() + 1):
+            return "both-components-subnormal(error<=16+2^(p-b+1))"
+    return None
 
 
 def work(task):
@@ -287,6 +331,8 @@ def work(task):
                 if (rx == "one" and ry in tiny) or (ry == "one" and rx in tiny):
                     # one cause, many symptoms (0 instead of ~sqrt(2|y|), log(0) = -inf, 1/0 = inf, lost digits)
                     sig = f"{name}:{dtype}:unit-component-with-other-component-whose-square-underflows"
+                elif kind in ("more-than-16-ulp", "spurious-infinity") and (cause := known_cause(name, fmt, comp, xb, yb, d, kind)) is not None:
+                    sig = f"{name}:{dtype}:{cause}"
                 else:
                     sig = f"{name}:{dtype}:{kind}:{'re' if comp == 0 else 'im'}:|x|={rx},|y|={ry}"
                 out["violations"].append(dict(sig=sig, kind=kind, comp=comp, x=xb, y=yb, got=list(got), ref=[sorted(map(str, a)) for a in ref], ulp=d if d < (1 << 61) else "nan/inf"))
